@@ -11,6 +11,8 @@ ops (one output line each):
   alt  <max> <k> <k selector tokens> <node in prefix form>
                                          -> `v=<verdict> parses=<0|1>`  (does ParseSelector read the node as that selector)
   wired <selector in prefix form>        -> `resp=<served|status>` | `not-wf`  (default responder configuration)
+  wiredp <selector in prefix form>       -> the same: default responder plus a hook that only pauses, unpaused by the
+                                            harness afterwards; pausing validates nothing, so the outcome is `wired`'s
 
 selector prefix form:  m | ms a b | a S | f n (s:key S)* | i idx S | r a b S
                      | R <none|d<int>> <-|!<nat>> S | e | u n S* | t s:adl S
@@ -194,7 +196,7 @@ def stepLine (t : Toks) : String :=
         s!"v={showVerdict (validate mx n)} parses={if parsesB s n && wfIn false s then 1 else 0}"
       | _, _ => "bad-op"
     | _, _ => "bad-op"
-  | "wired" :: rest =>
+  | "wired" :: rest | "wiredp" :: rest =>
     match parseSel (rest.length + 1) rest with
     | some (s, []) => if !wf s then "not-wf" else s!"resp={showResp (defaultResponse (enc s))}"
     | _ => "bad-op"
